@@ -283,11 +283,11 @@ func (m *Muxer) Send(msg *Segment) error {
 		return err
 	}
 	buf.Write(msg.Payload)
+	m.verifEv("Send", msg.GetProtocolId(), msg.IsResponse(), len(msg.Payload), 0, "", msg.Payload)
 	_, err = m.conn.Write(buf.Bytes())
 	if err != nil {
 		return err
 	}
-	m.verifEv("Send", msg.GetProtocolId(), msg.IsResponse(), len(msg.Payload), 0, "", msg.Payload)
 	return nil
 }
 
